@@ -150,6 +150,13 @@ func Build(sb *gw.Sandbox, t s3c.Transport, versioning bool) (*Fixture, error) {
 		return nil, e
 	}
 	fx.PartETag = s3c.ETag(r.Header.Get("ETag"))
+	// more uploads in progress around it (paging of ListMultipartUploads needs a population), two on one key
+	for _, k := range []string{"mp0", "mp2", "mp2", "dir/mp3"} {
+		r, err = c.Call("POST", "/"+fx.BktA+"/"+k, s3c.Q("uploads", ""), nil, nil)
+		if e := must(r, err, "create multipart upload "+k); e != nil {
+			return nil, e
+		}
+	}
 	if versioning {
 		if err := mk(fx.BktV, "alice", nil); err != nil {
 			return nil, err
